@@ -4,6 +4,7 @@ import (
 	"bytes"
 	"fmt"
 	"io"
+	"math"
 	"unicode/utf8"
 )
 
@@ -46,6 +47,8 @@ func (d *Decoder) decodeTypedUint() (Type, uint64, error) {
 		nfollow = 4
 	case 27:
 		nfollow = 8
+	case 28, 29, 30, 31:
+		return t, 0, fmt.Errorf("cbor: Reserved or indefinite-length additional information %d is not supported", ai)
 	default:
 		nfollow = 0
 	}
@@ -95,6 +98,9 @@ func (d *Decoder) decodeBytesOfType(expected Type) ([]byte, error) {
 	n, err := d.decodeOfType(expected)
 	if err != nil {
 		return nil, err
+	}
+	if n > math.MaxInt64 {
+		return nil, fmt.Errorf("cbor: String length %d is too large", n)
 	}
 	bs := new(bytes.Buffer)
 	if _, err := io.CopyN(bs, d.r, int64(n)); err != nil {
